@@ -172,6 +172,31 @@ def do_op(p, op, user_model, field):
         except Exception as e:
             return f"invalid write raised {type(e).__name__} instead of InvalidStateValue"
         return f"writing unmapped value {op[1]!r} was accepted"
+    if k == "bad-setstate":
+        # a State object that does not belong to this machine (unmapped value)
+        from statemachine import State
+        foreign = State("Foreign", value=op[1])
+        foreign._set_id("foreign")
+        try:
+            sm.current_state = foreign
+        except InvalidStateValue:
+            return None
+        except Exception as e:
+            return f"assigning a foreign State raised {type(e).__name__} instead of InvalidStateValue"
+        return f"assigning a foreign State with unmapped value {op[1]!r} was accepted"
+    if k == "ev-write":
+        # an event during which one callback writes another valid value to the model: the
+        # transition still assigns its target after `on` (the value written in before/exit/on is
+        # overwritten, a value written in enter/after stays)
+        ev, phase, sid, tag = op[1], op[2], op[3], op[4]
+        name = {"before": "before_transition", "exit": "on_exit_state", "on": "on_transition",
+                "enter": "on_enter_state", "after": "after_transition"}[phase]
+        rules = {(("sm", name), ev): (("=" + sid,), 1)}
+        p.ref.plan.rules.clear()
+        p.ref.plan.rules.update(rules)
+        p.ref.fired.clear()
+        p.impl.env.fired.clear()
+        return p.send(ev, {}, tag=tag)
     if k == "bad-setattr":
         old = field_value(sm.model, field)
         setattr(sm.model, field, op[1])
@@ -196,6 +221,13 @@ def ops_alphabet(m, i):
         ops += [("setval", s.id), ("setstate", s.id, "inst"), ("setstate", s.id, "cls"),
                 ("setattr", s.id)]
     ops += [("bad-setval", b) for b in BAD] + [("bad-setattr", BAD[0]), ("bad-setattr", BAD[1])]
+    ops += [("bad-setstate", BAD[0]), ("bad-setstate", BAD[1])]
+    for ev in ("n", "k"):
+        for phase in ("before", "on", "enter", "after"):
+            if ev == "k" and phase == "enter":
+                continue
+            for s in m.states[:2]:
+                ops.append(("ev-write", ev, phase, s.id, f"w{i}"))
     return ops
 
 
@@ -227,7 +259,8 @@ def scenario(res, alpha, init_pos, shape, field, cfg, start, hist_len, sc_base):
             stored = vals[start[1]]
             if user_model is not None:
                 setattr(user_model, field, stored)
-        p = Pair(built, cfg, stored=stored, start_value=start_value, deep=True,
+        from ..env import Plan
+        p = Pair(built, cfg, plan=Plan(), stored=stored, start_value=start_value, deep=True,
                  model=user_model, state_field=field)
         if shape == "mixin":
             p.impl.mixin = True
@@ -235,9 +268,19 @@ def scenario(res, alpha, init_pos, shape, field, cfg, start, hist_len, sc_base):
         if shape == "default" and stored is not None:
             from statemachine.model import Model
             user_model = Model()
-            setattr(user_model, field, stored)
+            try:
+                setattr(user_model, field, stored)
+            except Exception as e:   # noqa: BLE001
+                res.violation({"category": "model.", "shape": shape, "alphabet": alpha,
+                               "start": "stored", "engine": cfg.engine}, dict(sc_base, seq=[]),
+                              f"the default Model cannot hold field {field!r}: "
+                              f"{type(e).__name__}: {e}")
+                continue
             p.impl.model = user_model
-        msg = p.construct()
+        try:
+            msg = p.construct()
+        except Exception as e:   # noqa: BLE001
+            msg = f"constructing the machine raised {type(e).__name__}: {e}"
         # async machines activate lazily: in half of the sequences the first operation (possibly
         # an external write) happens *before* any activation
         lazy = asyn and seq and (hash(repr(seq)) % 2 == 0 or seq[0][0] in ("setval", "setattr"))
